@@ -161,7 +161,9 @@ def run_batch(job):
     legacy = job["legacy"]
     cases = job["cases"]
     built = {}
-    files = {"bystander18.py": "@event_trigger('ev_by18')\ndef by18(**kw):\n    vf.rec('bystander-file', 'x')\n"}
+    # two bystander files: one loads before, one after every generated file (files load in context-name order)
+    files = {"a_bystander18.py": "@event_trigger('ev_by18')\ndef by18a(**kw):\n    vf.rec('bystander-file', 'a')\n",
+             "zz_bystander18.py": "@event_trigger('ev_by18')\ndef by18z(**kw):\n    vf.rec('bystander-file', 'z')\n"}
     cpy_root = tempfile.mkdtemp(prefix="vf18c")
     out = []
     try:
@@ -257,7 +259,7 @@ def run_batch(job):
                 await w.settle()
                 recs = w.take()
                 loaded = sorted(n for n in GlobalContextMgr.contexts if pid in n)
-                results[c["id"]] = {"steps": steps, "by_same": ran(recs, "bystander", pid), "by_other": ran(recs, "bystander-file", "x"),
+                results[c["id"]] = {"steps": steps, "by_same": ran(recs, "bystander", pid), "by_other": min(ran(recs, "bystander-file", "a"), ran(recs, "bystander-file", "z")),
                                     "loaded": loaded, "root": root}
         finally:
             logging.getLogger().removeHandler(fh)
@@ -283,7 +285,8 @@ def run_batch(job):
                 for r in s["reports"]:
                     lines = [ln for ln in r["msg"].split("\n") if ln.strip()]
                     r["last"] = lines[-1][:200] if lines else ""
-                    r["carries"] = bool(re.match(r"^[\w.]*(Error|Exception|Warning|Exit|Interrupt|StopIteration|StopAsyncIteration|MyErr|Err)\b", r["last"])
+                    names = [P.fault["exc"], "m-" + spec["pid"], "h-" + spec["pid"]] if P.fault else []
+                    r["carries"] = any(n in r["msg"] for n in names) or bool(re.match(r"^[\w.]*(Error|Exception|Warning|Exit|Interrupt|StopIteration|StopAsyncIteration|MyErr|Err)\b", r["last"])
                                         or "Traceback" in r["msg"] or 'File "' in r["msg"])
                     r["msg"] = r["msg"][-1500:]
             out.append({"id": c["id"], "pid": spec["pid"], "entry": spec["entry"], "sub": "legacy" if legacy else "dm",
@@ -362,7 +365,7 @@ def gen_cases(ctx):
     r = random.Random(ctx.seed * 104729 + 18)
     cases = []
     k = 0
-    per_entry = ctx.pick(2, 14)         # programs per (entry kind, masked?) ; every fault position of each
+    per_entry = ctx.pick(2, 40)         # programs per (entry kind, masked?) ; every fault position of each
     for entry in c18gen.ENTRIES:
         for masked in (True, False):
             for _ in range(per_entry):
@@ -378,6 +381,25 @@ def gen_cases(ctx):
                     for sub in ("dm", "legacy"):
                         cases.append({"id": "%s/%s/%s" % (sp["pid"], entry, sub), "spec": sp, "fault_pos": pos, "legacy": sub == "legacy",
                                       "masked": masked, "family": "positions"})
+    # every link kind on a small fixed shape (so that each known deviation is exercised in every run)
+    feats = [["wrapper", "func"], ["samename", "method"], ["func", "samename", "func"], ["classbody", "func"], ["import", "func"], ["func", "import"],
+             ["nested", "method"], ["method", "wrapper"], ["func", "lambda"]]
+    for i, kinds_ in enumerate(feats):
+        for entry in ("load", "service-func", "trigger-func") if not ctx.quick else (("load", "service-func", "trigger-func")[i % 3],):
+            k += 1
+            base = c18gen.gen_spec(r, "c%dx" % k, masked=False, entry=entry, depth=len(kinds_))
+            base["leaf_lambda"] = kinds_[-1] == "lambda"
+            for lk, kd in zip(base["links"], kinds_):
+                lk["kind"] = kd if kd != "lambda" else "func"
+                lk["try"] = "-"
+            base["entry_try"] = "-"
+            n = c18gen.Program(c18gen.scaffold(copy.deepcopy(base)), -1).nslots
+            for pos in range(n):
+                sp = copy.deepcopy(base)
+                sp["pid"] = "c%dp%dx" % (k, pos)
+                for sub in ("dm", "legacy"):
+                    cases.append({"id": "%s/%s/%s" % (sp["pid"], entry, sub), "spec": sp, "fault_pos": pos, "legacy": sub == "legacy",
+                                  "masked": False, "family": "features"})
     # every exception kind, on a small fixed shape, entry kinds in rotation
     kinds = all_kinds()
     if ctx.quick:
@@ -523,6 +545,7 @@ def main(ctx):
         ctx.cov["traces_validated_against_impl"] += len(recs)
         report(ctx, recs, res)
         return
+    ctx.assumptions += ASSUMPTIONS
     cases = gen_cases(ctx)
     jobs = make_jobs(cases, ctx.pick(30, 40))
     mt = model_thunks(ctx)
@@ -570,7 +593,8 @@ def main(ctx):
     ctx.cov["masked_space"] = {"cases": len(masked), "rejected": sum(1 for x in masked if x["id"] in rejected and
                                                                     not (x["sub"] == "dm" and x["entry"].startswith("trigger-func")))}
     ctx.cov["unmasked_space"] = {"cases": len(recs) - len(masked), "rejected": sum(1 for x in recs if not x["case"]["masked"] and x["id"] in rejected)}
-    ctx.cov["distinct_nontrivial"] = len({json.dumps([x["units"], x["entry"], x["sub"]], sort_keys=True) for x in recs
+    # distinct by program description with the case's own identifier removed from all names, entry kind and subsystem
+    ctx.cov["distinct_nontrivial"] = len({json.dumps([x["units"], x["entry"], x["sub"]], sort_keys=True).replace(x["pid"], "P") for x in recs
                                           if any(s["v"] == 0 and s["reports"] for s in x["contain"]["steps"])})
     ctx.cov["rule"] = ("generated call chains (depth 1-5 over functions, methods, nested functions, decorator wrappers, class bodies, lambdas, "
                        "same-named methods, pyscript modules, module loads; calls and faults inside 26 expression contexts and 11 statement "
@@ -582,16 +606,22 @@ def main(ctx):
                     "pyscript": [{"logger": ob["logger"], "parts": strip_frames(ob["parts"])} for ob in x["obs"]]})
     if ctx.cov["cpython_reference_runs"] < len(recs) * 0.95:
         raise MachineryFailure("CPython reference missing for %d of %d cases" % (len(recs) - ctx.cov["cpython_reference_runs"], len(recs)))
+    if ctx.violations:
+        # unlisted rejections are reported as such; thin coverage / few acceptable recordings are then consequences, not machinery failures
+        ctx.cov["selftest_skipped"] = "violations present"
+        return
     if ctx.cov["distinct_nontrivial"] < len(recs) * 0.8:
         raise MachineryFailure("vacuous coverage: only %d of %d cases produced a report" % (ctx.cov["distinct_nontrivial"], len(recs)))
     selftest(ctx, recs, rejected)
-    ctx.assumptions += [
-        "exception kinds = the builtin classes deriving from Exception that simple code can raise, user classes, chained causes; "
-        "BaseException-only kinds (SystemExit, KeyboardInterrupt, GeneratorExit, CancelledError) are not injected (see notes/C18.md)",
-        "the frame pyscript prints for a trigger / active / filter expression itself has no counterpart in Python and is not compared; "
-        "module-level frames are named after the global context where Python says <module>: mapped",
-        "only frames whose file lies below the pyscript directory are compared (frames of the integration and of libraries are ignored)",
-        "'own logger' = custom_components.pyscript.<context of the script file> or a logger below it; a module whose load fails also reports on its own logger",
-        "@time_active takes a time specification, not user code: not an entry point; generator expressions are not implemented by pyscript and are not generated",
-        "a class body is only generated at module level (inside a function pyscript's class body cannot read the function's locals: scoping is C03's subject)",
-    ]
+
+
+ASSUMPTIONS = [
+    "exception kinds = the builtin classes deriving from Exception that simple code can raise, user classes, chained causes; "
+    "BaseException-only kinds (SystemExit, KeyboardInterrupt, GeneratorExit, CancelledError) are not injected (see notes/C18.md)",
+    "the frame pyscript prints for a trigger / active / filter expression itself has no counterpart in Python and is not compared; "
+    "module-level frames are named after the global context where Python says <module>: mapped",
+    "only frames whose file lies below the pyscript directory are compared (frames of the integration and of libraries are ignored)",
+    "'own logger' = custom_components.pyscript.<context of the script file> or a logger below it; a module whose load fails also reports on its own logger",
+    "@time_active takes a time specification, not user code: not an entry point; generator expressions are not implemented by pyscript and are not generated",
+    "a class body is only generated at module level (inside a function pyscript's class body cannot read the function's locals: scoping is C03's subject)",
+]
